@@ -56,8 +56,10 @@ theorem table_closed (st : St) : closedAt Gen.prog reachInputs reachAt st = true
   simp only [chunkClosed, List.all_eq_true] at hall
   exact hall st hmem
 
-/-- the input class of a byte: itself if the table ever tests it, else the one "other" byte -/
-def repOf (c : UInt8) : UInt8 := if reachInputs.contains c then c else reachOther
+/-- the input class of a byte: itself if the table ever tests it, else the representative of its run of
+    untested bytes (the last one that is not above it) -/
+def repOf (c : UInt8) : UInt8 :=
+  if reachMentioned.contains c then c else ((reachGapReps.filter (· ≤ c)).getLast?).getD reachOther
 
 /-- table obligation: in every step function each non-zero byte takes the same branches as its
     representative (256 × 173 program walks, kernel-evaluated) -/
